@@ -13,6 +13,13 @@ def cfg(name, MaxN, queries, TreesOnly=False, MaxTuple=0, MaxStop=0, MaxHide=0, 
                 MaxHide=MaxHide, NegLevel=NegLevel, OnlyNoMax=OnlyNoMax, sample_others=sample_others)
 
 
+def big(name, queries, lo, hi, instances, per, TreesOnly=False, OnlyNoMax=False, sample_others=2):
+    """Beyond the exhaustive bounds: large random shapes with random queries (MC_QueryBig)."""
+    c = cfg(name, 4, queries, TreesOnly=TreesOnly, OnlyNoMax=OnlyNoMax, sample_others=sample_others)
+    c["big"] = dict(BigMin=lo, BigMax=hi, Instances=instances, PerShape=per)
+    return c
+
+
 CONFIGS = {
     ("C04", "quick"): [cfg("nav-f6", 6, ("nav", "common"), MaxTuple=3)],
     ("C04", "thorough"): [cfg("nav-f7", 7, ("nav", "common"), MaxTuple=3), cfg("nav-f8", 8, ("nav",), MaxTuple=0)],
@@ -32,10 +39,26 @@ CONFIGS = {
     ("C18", "thorough"): [cfg("all-f5", 5, ("nav", "common", "iters", "walk", "find"), MaxTuple=2, MaxStop=2, MaxHide=2, sample_others=0)],
 }
 
+BIG = {
+    "C04": (("nav", "common"), {}), "C05": (("iters",), dict(OnlyNoMax=True)), "C06": (("iters",), dict(TreesOnly=True)),
+    "C14": (("findall", "find", "byattr"), {}), "C15": (("walk",), {}),
+    "C17": (("nav", "common", "iters", "walk", "find"), dict(sample_others=0)), "C18": (("nav", "common", "iters", "walk", "find"), dict(sample_others=0)),
+}
+for _p, (_q, _kw) in BIG.items():
+    _n = _p.lower()
+    CONFIGS[(_p, "quick")] = CONFIGS[(_p, "quick")] + [big("big-%s-40" % _n, _q, 10, 40, 48, 40, **_kw), big("big-%s-300" % _n, _q, 100, 300, 12, 30, **_kw)]
+    CONFIGS[(_p, "thorough")] = CONFIGS[(_p, "thorough")] + [big("big-%s-60" % _n, _q, 10, 60, 400, 60, **_kw), big("big-%s-400" % _n, _q, 100, 400, 48, 40, **_kw)]
+
 LEMMAS = ("Lem_Nav", "Lem_Orders", "Lem_Walk")
 
 
 def tlc_cfg(c):
+    if c.get("big"):
+        consts = {"Nil": 0, "MaxN": c["MaxN"], "TreesOnly": c["TreesOnly"], "Queries": set(c["queries"]), "MaxTuple": 0, "MaxStop": 0, "MaxHide": 0,
+                  "NegLevel": False, "OnlyNoMax": c["OnlyNoMax"]}
+        consts.update(c["big"])
+        # (the cross-lemmas are checked on every small shape; on large shapes only "as-built = definition" per transition)
+        return T.cfg_text(consts, init="BigInit", next_="BigNext", view="View", properties=("Thm_Iters",), action_constraints=("Emit",), deadlock=False)
     return T.cfg_text(
         {"Nil": 0, "MaxN": c["MaxN"], "TreesOnly": c["TreesOnly"], "Queries": set(c["queries"]), "MaxTuple": c["MaxTuple"],
          "MaxStop": c["MaxStop"], "MaxHide": c["MaxHide"], "NegLevel": c["NegLevel"], "OnlyNoMax": c["OnlyNoMax"]},
@@ -43,6 +66,10 @@ def tlc_cfg(c):
 
 
 def run_model(c, coverage=False):
+    if c.get("big"):
+        # one worker and a fixed seed: the drawn instances are the same in every run
+        return T.run_vectors("MC_QueryBig", tlc_cfg(c), c["name"], lambda st: st["distinct"] * c["big"]["PerShape"], workers=1,
+                             extra=("-seed", str(11 + core.seed())))
     return T.run_vectors("MC_Query", tlc_cfg(c), c["name"], lambda st: st["generated"] - st["distinct"])
 
 
